@@ -10,4 +10,36 @@ CHECKS = {
                  "contracts are not executed (no solc/VM offline). Go int overflow out of scope (n < 2^59)."),
     },
 }
+CHECKS.update({
+    "C04": {
+        "level": "proof",
+        "technique": "Lean 4 theorems (layout, injectivity, header independence) over a hand model of serializeBody/Marshal tied by differential run, plus contract offsets re-extracted from Solidity/Ralph source",
+        "text": ("serializeBody's big-endian layout, its injectivity on in-range bodies (two messages differing in any field never share a "
+                 "signing body), independence of the digest from header and sub-second time, and equality of the bytes the contracts hash "
+                 "with the Go signing body are Lean theorems for every VAA value; the contract offset tables are regenerated from "
+                 "Messages.sol / governance.ral on every run and compared by decide; the Go serializer is tied to the model by a "
+                 "differential run on generated VAAs and single-field mutations."),
+        "note": ("Trusted: Lean kernel; Keccak-256 as an oracle (no collision-resistance assumption is used: theorems stop at the signing "
+                 "body); checks/c04gen.py extraction; contracts not executed; differential run samples inputs."),
+    },
+    "C05": {
+        "level": "proof",
+        "technique": "Lean 4 round-trip theorems (decode∘encode, encode∘decode) over a hand model of Marshal/Unmarshal, tied by differential execution of the real codec",
+        "text": ("unmarshal (marshal v) = some v for every in-domain VAA of any payload length, and unmarshal bs = some v -> marshal v = bs "
+                 "(nothing accepted is truncated or altered) are proved in Lean; the model is compared with the real Marshal/Unmarshal on "
+                 "generated VAAs, every truncation point of small encodings, structured mutations and random bytes on each run, and the "
+                 "round-trip Spec is also evaluated directly on the implementation's outputs (that is what finds a failing input)."),
+        "note": ("Trusted: Lean kernel; harness + driver comparison; totality (no panic/over-read) of the Go decoder is observed on generated "
+                 "inputs, not proved; bytes.Reader/encoding/binary are exercised, not modelled."),
+    },
+    "C06": {
+        "level": "proof",
+        "technique": "Lean 4 iff-theorem (verifySignatures = true <-> Valid) for lists of any length with ecrecover as an abstract oracle, tied by differential execution of VerifySignatures",
+        "text": ("verify_iff proves, for guardian and signature lists of any length and any recover oracle, that the model of VerifySignatures "
+                 "accepts exactly lists whose signatures recover positionally, lie in range, strictly ascend and count no address twice; "
+                 "corollaries cover swap, duplicate, re-index, outsider, other digest. The model is compared with the real function on "
+                 "list sizes 0..255 with 20+ corruption classes each run, with an independent ecrecover oracle."),
+        "note": "Trusted: Lean kernel; secp256k1/Keccak as oracles supplied per case; harness + driver; differential run samples inputs.",
+    },
+})
 NOT_BUILT = {}
